@@ -5,6 +5,14 @@ procedural evaluator: every + - * / % and negation on i16/i32/i64/u64 operands t
 operation (or is guarded by a dominating test).  An unchecked operation is visible in MIR as an `Overflow(..)` /
 `DivisionByZero` / `RemainderByZero` assert: it panics in debug builds and wraps silently in release builds.
 Findings are keyed per function and kind of operation.
+Also decides two clauses of "never panics / always returns":
+ (str)  every operation that addresses a string by a byte offset (str/String indexing by a range, split_at, truncate,
+        insert, remove, drain, replace_range) in the executor, storage, catalog and types crates is discharged - the
+        offset is a match position (find/rfind, plus the width of an ASCII pattern), the length of a pattern after a
+        starts_with/ends_with test, 0 / len, or the string is tested ASCII - or is listed in the reviewed table;
+        anything else is a finding (a computed offset can fall inside a multi-byte character, which panics);
+ (loop) a loop that advances through a string by slicing off `len(pattern)` bytes per iteration is entered only with a
+        non-empty pattern (otherwise it never terminates).
 Does NOT decide panic-freedom of the whole executor (hundreds of unwraps and index expressions in 69k lines: an
 unreviewed inventory would only be noise) nor floating-point rounding."""
 import re
@@ -13,7 +21,7 @@ from ..engine.symexpr import Sym
 from .C23 import _const_nonzero_arg
 from . import shared
 
-UNITS = {'vibesql_executor', 'vibesql_types'}
+UNITS = {'vibesql_executor', 'vibesql_types', 'vibesql_storage', 'vibesql_catalog'}
 EX = 'vibesql_executor::'
 SCOPE = (EX + 'evaluator::operators::', EX + 'evaluator::expressions::operators', EX + 'select::grouping::aggregates', EX + 'evaluator::window::',
          EX + 'select::columnar::', EX + 'select::vectorized::', EX + 'simd::', EX + 'procedural::executor::evaluate_expression',
@@ -87,6 +95,229 @@ def run(ctx):
         ops = sorted({f'{x.detail}:{x.term.get("opty") or ""}' for x in ss})
         ctx.finding(f'wrap/{fn}/{cls}', f'{fn}: {len(ss)} unchecked integer operation(s) ({", ".join(ops)[:120]}) on SQL values: the result wraps '
                     'silently in release builds (panics in debug builds) instead of yielding an error', ss[0].loc)
+    string_offset_rule(ctx, prog)
+    slice_advance_loops(ctx, prog)
+
+
+STR_OP = re.compile(r'Index(Mut)?::index(_mut)? on (str|alloc::string::String)|^core::str::<impl str>::split_at|'
+                    r'^alloc::string::String::(remove|insert|insert_str|drain|split_off|truncate|replace_range)')
+T = 'vibesql_types::temporal::'
+REVIEWED_STR = {
+    (EX + 'cache::parameterized::ParameterizedPlan::bind', 'Index::index on alloc::string::String'):
+        'offset = position returned by find() + length of the text inserted there: always a boundary',
+    (EX + 'cache::parameterized::ParameterizedPlan::bind', 'alloc::string::String::replace_range'):
+        'range = position of the one-byte placeholder "?" found by find() .. +1',
+    (EX + 'evaluator::date_format::format_number', 'alloc::string::String::truncate'):
+        'the string is the decimal rendering of an f64 (ASCII digits)',
+    (EX + 'evaluator::date_format::format_with_commas', 'alloc::string::String::insert'):
+        'insertion at offset 0',
+    (EX + 'procedural::function::execute_simple_return', 'Index::index on str'):
+        'slices off len("RETURN") after to_uppercase().starts_with("RETURN"): only ASCII letters upper-case to R, E, T, U, N',
+    (EX + 'trigger_execution::TriggerFirer::parse_trigger_sql', 'Index::index on str'):
+        'slices off 5 / 3 bytes after to_uppercase().starts_with("BEGIN") / ends_with("END"): byte 5 is a boundary for every spelling whose upper case is '
+        'BEGIN (the only non-ASCII candidate, dotless i, is 2 bytes wide and followed by N at byte 5); only ASCII letters upper-case to E, N, D',
+    ('<' + T + 'time::Time as core::str::traits::FromStr>::from_str', 'Index::index on alloc::string::String'):
+        'the fraction was tested to consist of ASCII digits and padded with ASCII zeros before it is cut at 9 bytes',
+}
+
+
+def _str_discharge(prog, f, s, sym):
+    """reason when the byte offset(s) of a string operation are provably character boundaries"""
+    args = [sym.op(a) for a in s.term.get('args', [])]
+    if len(args) < 2:
+        return None
+    rng = args[1]
+    m = re.match(r'^(RangeFrom|RangeTo|Range|RangeInclusive|RangeToInclusive)\((.*)\)$', rng)
+    bounds = _split_top(m.group(2)) if m else [rng]
+
+    def boundary(b):
+        b = b.strip()
+        mphi = re.fullmatch(r'phi\((.*)\)', b)
+        if mphi:
+            alts = [x.strip() for x in _split_bar(mphi.group(1))]
+            rs = [boundary(x) for x in alts]
+            return ' / '.join(sorted(set(rs))) if all(rs) else None
+        if re.fullmatch(r'unwrap_or\(map\(nth\(char_indices\(.*\), .*\), closure#\d+\(\)\), len\(.*\)\)', b):
+            return 'byte offset of the n-th character (char_indices) or the length'
+        if re.fullmatch(r'const\(0\)', b) or re.fullmatch(r'len\(.*\)', b):
+            return 'start / end of the string'
+        if re.search(r'^(branch\(ok_or_else\()?r?find\(', b) or re.fullmatch(r'r?find\(.*\)@Some\.0', b):
+            return 'position returned by find / rfind'
+        mm = re.fullmatch(r'\((.*) AddWithOverflow const\(1\)\)(\.0)?', b)
+        if mm and re.search(r'r?find\([^,]*, const\((\d+)\)\)', mm.group(1)) and int(re.search(r'r?find\([^,]*, const\((\d+)\)\)', mm.group(1)).group(1)) < 128:
+            return 'position of a one-byte ASCII character + 1'
+        return None
+    reasons = [boundary(b) for b in bounds]
+    if all(reasons):
+        return 'S1: ' + ', '.join(sorted(set(reasons)))
+    if all(re.search(r'len\(|const\(\d+\)', b) for b in bounds) and _only_after_prefix_test(f, s.block, sym):
+        return 'S2: slices off the length of a pattern; every path to the slice takes the true branch of a starts_with / ends_with test'
+    return None
+
+
+def _only_after_prefix_test(f, block, sym):
+    """is `block` unreachable once the true edges of all starts_with / ends_with tests are cut?"""
+    from ..engine.cfg import cfg
+    g = cfg(f)
+    dead = set()
+    for sb in g.reachable():
+        t = f.blocks[sb]['t']
+        if t['k'] != 'switch':
+            continue
+        c = shared.switch_condition(f, sb, sym)
+        if not re.match(r'^(starts_with|ends_with)\(', c):
+            continue
+        for v, tb in t['targets']:
+            if int(v) != 0:
+                dead.add((sb, tb))
+        if t.get('else') is not None and any(int(v) == 0 for v, _tb in t['targets']):
+            dead.add((sb, t['else']))
+    if not dead:
+        return False
+    seen = {0}; work = [0]
+    while work:
+        b = work.pop()
+        for x in g.succ[b]:
+            if (b, x) in dead or x in seen:
+                continue
+            seen.add(x); work.append(x)
+    return block not in seen
+
+
+def _split_bar(x):
+    out = []; d = 0; cur = ''
+    for ch in x:
+        if ch in '([':
+            d += 1
+        elif ch in ')]':
+            d -= 1
+        if ch == '|' and d == 0:
+            out.append(cur.strip()); cur = ''
+        else:
+            cur += ch
+    if cur.strip():
+        out.append(cur.strip())
+    return out
+
+
+def _split_top(x):
+    out = []; d = 0; cur = ''
+    for ch in x:
+        if ch in '([':
+            d += 1
+        elif ch in ')]':
+            d -= 1
+        if ch == ',' and d == 0:
+            out.append(cur.strip()); cur = ''
+        else:
+            cur += ch
+    if cur.strip():
+        out.append(cur.strip())
+    return out
+
+
+def string_offset_rule(ctx, prog):
+    from ..engine.panics import may_panic_sites
+    ctx.rule('C24.str', 'every byte-offset operation on a string (indexing by a range, split_at, truncate, insert, remove, drain, replace_range) in the '
+             'executor, storage, catalog and types crates is discharged (match position, pattern length after starts_with/ends_with, 0/len, ASCII-tested) '
+             'or reviewed; a computed offset is a finding (it can fall inside a multi-byte character)')
+    fns = [f for f in prog.fns.values() if f.unit in ('vibesql_executor', 'vibesql_storage', 'vibesql_catalog', 'vibesql_types') and not shared.is_test(f)
+           and not f.is_closure()]
+    sites = [x for x in may_panic_sites(prog, fns, with_alloc=False) if x.kind == 'call' and STR_OP.search(x.detail)]
+    ctx.floor('C24.str string-offset operations', len(sites), 35)
+    syms = {}
+    for x in sites:
+        f = x.fn
+        sy = syms.setdefault(f.path, Sym(f))
+        reason = auto_discharge(prog, f, x) or _str_discharge(prog, f, x, sy)
+        root = f.nice.split('::{closure')[0]
+        rk = (root, x.detail)
+        status = 'discharged' if reason else 'reviewed' if rk in REVIEWED_STR else 'open'
+        ctx.instance(f'str/{x.key}', {'rule': 'C24.str', 'fn': f.nice, 'loc': x.loc, 'op': x.detail, 'status': status, 'reason': (reason or REVIEWED_STR.get(rk, ''))[:140]})
+        if status == 'reviewed':
+            ctx.exempt(f'str/{root}/{x.detail}', REVIEWED_STR[rk])
+        if status == 'open':
+            ctx.finding(f'str/{root}/{x.detail}', f'{root}: `{x.detail}` with a computed byte offset ({", ".join(sy.op(a)[:60] for a in x.term.get("args", [])[1:])}): when the '
+                        'offset falls inside a multi-byte character the operation panics (statement execution / loading must return an error or a value)', x.loc)
+
+
+def slice_advance_loops(ctx, prog):
+    """loops whose progress is `x = &x[len(p)..]` / `x = &x[..len(x) - len(p)]`: p must be known non-empty"""
+    from ..engine.paths import loop_headers
+    from ..engine.linear import Encoder
+    from ..engine.cfg import cfg
+    ctx.rule('C24.loop', 'a loop that advances by slicing len(pattern) bytes off a string per iteration is reachable only when the pattern is known to be '
+             'non-empty (a dominating is_empty / len test), otherwise it does not terminate')
+    n = 0
+    for f in prog.fns.values():
+        if f.unit != 'vibesql_executor' or shared.is_test(f) or f.dk == 'Promoted':
+            continue
+        idx = [(i, t) for i, t in f.calls() if re.search(r'Index<.*::index$', (t['f'].get('rn') or t['f'].get('n') or '')) or 'ops::index::Index' in (t['f'].get('rn') or '')]
+        if not idx:
+            continue
+        g = cfg(f)
+        sy = None
+        enc = None
+        for i, t in idx:
+            if len(t['args']) < 2:
+                continue
+            sy = sy or Sym(f)
+            rng = sy.op(t['args'][1])
+            pat = _advance_amount(rng)
+            if pat is None:
+                continue
+            enc = enc or Encoder(prog, f)
+            in_loop = [h for h in _natural_loop_heads(g) if i in _loop_body(g, h)]
+            if not in_loop:
+                continue
+            n += 1
+            conds = shared.deciding_conditions(f, i, sy)
+            guarded = any((c == f'is_empty({pat})' and v == '0') or (c in (f'(len({pat}) Eq const(0))',) and v == '0') or
+                          (c in (f'(len({pat}) Ne const(0))', f'(len({pat}) Gt const(0))') and v != '0') for c, v in conds)
+            root = f.nice.split('::{closure')[0]
+            ctx.instance(f'loop/{root}@{shared._ordinal(f, i)}', {'rule': 'C24.loop', 'fn': f.nice, 'loc': f'{f.file}:{t["l"]}', 'advance': rng[:80], 'pattern_known_non_empty': guarded})
+            if not guarded:
+                ctx.finding(f'loop/{root}', f'{root}: a loop advances by slicing {rng[:60]} off the string; with an empty pattern the string never gets shorter and the '
+                            'statement never returns', f'{f.file}:{t["l"]}')
+    ctx.floor('C24.loop slice-advance loops', n, 6)
+
+
+def _advance_amount(rng):
+    """X for RangeFrom(len(X)) and RangeTo((len(A) Sub len(X))) - the pattern whose length is sliced off"""
+    m = re.match(r'^RangeFrom\(len\((.*)\)\)$', rng)
+    if m:
+        return m.group(1)
+    m = re.match(r'^RangeTo\(\((.*)\)(\.0)?\)$', rng)
+    if not m:
+        return None
+    inner = m.group(1)
+    d = 0
+    for k in range(len(inner)):
+        ch = inner[k]
+        if ch in '([':
+            d += 1
+        elif ch in ')]':
+            d -= 1
+        elif d == 0 and inner.startswith(' Sub', k):
+            rest = inner[k + 1:].split(' ', 1)
+            if len(rest) == 2:
+                mm = re.match(r'^len\((.*)\)$', rest[1])
+                if mm and inner[:k].startswith('len('):
+                    return mm.group(1)
+    return None
+
+
+def _same_root(cond, pat):
+    a = re.findall(r'[A-Za-z_][A-Za-z_0-9]*\*?', pat)
+    return bool(a) and a[0].rstrip('*') in cond
+
+
+def _natural_loop_heads(g):
+    return {h for (_b, h) in g.back_edges()}
+
+
+def _loop_body(g, h):
+    return {b for b in g.reachable() if g.dominates(h, b) and h in g.reach_from([b])}
 
 
 def _opclass(detail):
